@@ -5,8 +5,8 @@
                 data_len, hash}; HashCache::open  -> one sled tree per id
                      format!("hash_db:{:?}:{}", algorithm, transform.unwrap_or("<none>"))
                 HashCache::key = (metadata.file_id(), chunk.pos, chunk.len)
-                HashCache::put stores (mtime as whole ms since the epoch, 0 when the mtime is BEFORE the
-                     epoch: duration_since(UNIX_EPOCH).unwrap_or(ZERO); file len; data_len; hash)
+                HashCache::put stores (timestamp_ms(mtime): whole ms since the epoch, rounded towards zero and
+                     negated (wrapping) for an mtime before the epoch; file len; data_len; hash)
                 HashCache::get returns None unless the stored ms and file_len equal the current ones
      hasher.rs  FileHasher::hash_file        (stat -> key -> load_hash; on a miss hash the chunk, `?` on a
                                               failed read leaves BEFORE store_hash; store (chunk.len, hash))
@@ -19,8 +19,9 @@
    State: the sled database is a map  tree id -> (Key -> CachedFileInfo); here one association list
    keyed by (tree id, key) (the newest binding of a key is the visible one; older bindings of the same
    key can only become visible again through [EvLose], which models entries lost by a crash before
-   the flush).  The tree id is what the code really uses: the algorithm and the transform COMMAND
-   STRING (or the literal "<none>"); the flags --in-place / --no-copy are NOT part of it.
+   the flush).  The tree id is what the code really uses: the algorithm and the transform id string
+   built by FileHasher::new_cached (command string + " --in-place" + " --no-copy", plainly concatenated)
+   or the literal "<none>".
 
    World: inodes (content bytes, mtime in ns since the epoch as a Z, possibly negative) and names.
    External functions are parameters: H a bytes (the hash function number a) and T conf bytes (the
@@ -32,19 +33,29 @@ Arguments N.sub : simpl never.
 Arguments N.eqb : simpl never.
 Arguments N.pred : simpl never.
 Arguments Z.div : simpl never.
+Arguments Z.quot : simpl never.
+Arguments Z.modulo : simpl never.
 Arguments Z.to_N : simpl never.
 
 Definition bytes := list N.
 Definition hashv := list N.
 Definition fid := (N * N)%type.                  (* (device, inode) *)
 Definition key := (fid * N * N)%type.            (* (file_id, chunk_pos, chunk_len) *)
-Record tconf := mkT { t_cmd : list N; t_inplace : bool; t_nocopy : bool }.
-Definition treeid := (N * list N)%type.          (* (algorithm, transform command string or "<none>") *)
+(* transform.rs `Transform`: command_str, in_place, copy (copy = "$IN occurs in the command" and not --no-copy) *)
+Record tconf := mkT { t_cmd : list N; t_inplace : bool; t_copy : bool }.
+Definition treeid := (N * list N)%type.          (* (algorithm, transform id string or "<none>") *)
 Definition none_str : list N := [60; 110; 111; 110; 101; 62].     (* "<none>" *)
+Definition inplace_str : list N := [32; 45; 45; 105; 110; 45; 112; 108; 97; 99; 101].   (* " --in-place" *)
+Definition nocopy_str : list N := [32; 45; 45; 110; 111; 45; 99; 111; 112; 121].        (* " --no-copy" *)
+(* hasher.rs new_cached: command_str + " --in-place" if in_place + " --no-copy" if !copy (plain concatenation) *)
+Definition transform_id (c : tconf) : list N :=
+  t_cmd c ++ (if t_inplace c then inplace_str else []) ++ (if t_copy c then [] else nocopy_str).
 Definition tree_of (a : N) (tr : option tconf) : treeid :=
-  (a, match tr with None => none_str | Some c => t_cmd c end).
+  (a, match tr with None => none_str | Some c => transform_id c end).
 
-Record entry := mkE { e_mt : N; e_fl : N; e_dl : N; e_h : hashv }.
+(* e_mt: the u64 `timestamp_ms` read as a signed number (wrapping_neg of the pre-epoch value); the two
+   readings agree for every mtime within 2^63 ms of the epoch *)
+Record entry := mkE { e_mt : Z; e_fl : N; e_dl : N; e_h : hashv }.
 Definition cache := list ((treeid * key) * entry).
 
 Fixpoint list_eqb (x y : list N) : bool :=
@@ -67,15 +78,16 @@ Fixpoint lookup (t : treeid) (k : key) (c : cache) : option entry :=
 (* ---- metadata as the cache sees it ---- *)
 Record meta := mkM { m_id : fid; m_mtime : Z; m_len : N }.
 
-(* modified().duration_since(UNIX_EPOCH).unwrap_or(Duration::ZERO).as_millis() *)
-Definition code_ms (mt : Z) : N := Z.to_N (mt / 1000000).
+(* cache.rs timestamp_ms: whole ms since the epoch for t >= epoch, minus the whole ms of (epoch - t) before it:
+   rounding TOWARDS ZERO (so every t with -1 ms < t < 1 ms gives 0) *)
+Definition code_ms (mt : Z) : Z := Z.quot mt 1000000.
 
 Definition cache_key (m : meta) (pos len : N) : key := (m_id m, pos, len).
 
 Definition cache_get (t : treeid) (k : key) (m : meta) (c : cache) : option (N * hashv) :=
   match lookup t k c with
   | None => None
-  | Some e => if negb (e_mt e =? code_ms (m_mtime m)) || negb (e_fl e =? m_len m) then None
+  | Some e => if negb (Z.eqb (e_mt e) (code_ms (m_mtime m))) || negb (e_fl e =? m_len m) then None
               else Some (e_dl e, e_h e)
   end.
 
@@ -295,10 +307,10 @@ Fixpoint confs (h : list event) : list (N * option tconf) :=
   end.
 
 (* ---- decidable forms of the provisos (the correspondence check classifies every case with them) ---- *)
-Definition real_ms (mt : Z) : Z := (mt / 1000000)%Z.      (* the mtime at millisecond resolution *)
+Definition real_ms (mt : Z) : Z := (mt / 1000000)%Z.      (* the mtime at millisecond resolution, rounded DOWN *)
 Definition all_inodes (ws : list world) : list (fid * inode) := flat_map w_inodes ws.
 Definition same_code_stamp (i j : inode) : bool :=
-  (code_ms (i_mtime i) =? code_ms (i_mtime j)) && (nlen (i_data i) =? nlen (i_data j)).
+  Z.eqb (code_ms (i_mtime i)) (code_ms (i_mtime j)) && (nlen (i_data i) =? nlen (i_data j)).
 Definition same_real_stamp (i j : inode) : bool :=
   Z.eqb (real_ms (i_mtime i)) (real_ms (i_mtime j)) && (nlen (i_data i) =? nlen (i_data j)).
 Definition pair_ok (same : inode -> inode -> bool) (x y : fid * inode) : bool :=
@@ -309,14 +321,18 @@ Definition determines_b (same : inode -> inode -> bool) (ws : list world) : bool
 Definition stamp_determines_b : list world -> bool := determines_b same_code_stamp.
 (* the same with the real millisecond mtime (the wording of the property) *)
 Definition mtime_determines_b : list world -> bool := determines_b same_real_stamp.
-Definition preepoch_b (ws : list world) : bool := existsb (fun x => Z.ltb (i_mtime (snd x)) 0) (all_inodes ws).
+(* some mtime before the epoch is not a whole number of milliseconds (only then the two roundings differ) *)
+Definition preepoch_fraction_b (ws : list world) : bool :=
+  existsb (fun x => Z.ltb (i_mtime (snd x)) 0 && negb (Z.eqb (Z.modulo (i_mtime (snd x)) 1000000) 0)) (all_inodes ws).
 
 Definition tconf_eqb (x y : tconf) : bool :=
-  list_eqb (t_cmd x) (t_cmd y) && Bool.eqb (t_inplace x) (t_inplace y) && Bool.eqb (t_nocopy x) (t_nocopy y).
-(* syntactic sufficient condition for "the tree id determines the transform" *)
-Definition none_cmd_b (cs : list (N * option tconf)) : bool :=
-  existsb (fun x => match snd x with Some c => list_eqb (t_cmd c) none_str | None => false end) cs.
-Definition flag_switch_b (cs : list (N * option tconf)) : bool :=
-  existsb (fun x => existsb (fun y => match snd x, snd y with
-                                      | Some c1, Some c2 => list_eqb (t_cmd c1) (t_cmd c2) && negb (tconf_eqb c1 c2)
-                                      | _, _ => false end) cs) cs.
+  list_eqb (t_cmd x) (t_cmd y) && Bool.eqb (t_inplace x) (t_inplace y) && Bool.eqb (t_copy x) (t_copy y).
+Definition otconf_eqb (x y : option tconf) : bool :=
+  match x, y with None, None => true | Some a, Some b => tconf_eqb a b | _, _ => false end.
+(* two different transform configurations in use get the same sled tree *)
+Definition alias_b (cs : list (N * option tconf)) : bool :=
+  existsb (fun x => existsb (fun y => tree_eqb (tree_of (fst x) (snd x)) (tree_of (fst y) (snd y))
+                                      && negb (otconf_eqb (snd x) (snd y))) cs) cs.
+(* ... and one of them is "no transform" *)
+Definition alias_none_b (cs : list (N * option tconf)) : bool :=
+  existsb (fun x => match snd x with Some c => list_eqb (transform_id c) none_str | None => false end) cs.
